@@ -166,9 +166,9 @@ func main() {
 		return dspace.Case{First: t.First, Data: d, Seed: fmt.Sprintf("%s resized to %d", t.Name, n), SeedIdx: -1}
 	}
 	phases := []enum.Phase{
-		{Name: "option-equivalence", Len: sp.NeighLen(),
-			Run:      func(i int64, w *enum.Worker) { equivalence(sp.NeighCase(i), w) },
-			Describe: func(i int64) any { return sp.NeighCase(i).Describe() }},
+		{Name: "option-equivalence", Len: sp.NeighDeepLen(),
+			Run:      func(i int64, w *enum.Worker) { equivalence(sp.NeighDeepCase(i), w) },
+			Describe: func(i int64) any { return sp.NeighDeepCase(i).Describe() }},
 		{Name: "sizes-around-the-pool-block", Len: int64(len(sp.Natural) * len(sizes)),
 			Run: func(i int64, w *enum.Worker) {
 				c := sized(i)
@@ -186,7 +186,7 @@ func main() {
 				return dspace.Case{First: t.First, Data: t.Data, Seed: t.Name}.Describe()
 			}},
 	}
-	r.Coverage["rule"] = "option-equivalence: every (first layer, input) of the deviation<=1 neighbourhoods x DSAD: packets decoded with every combination of {Lazy, NoCopy, Pool} must have the same signature as the default decode, PooledPacket iff Pool && !NoCopy && len<=1500. sizes: every natural seed resized to 0,1,1499,1500,1501,3000,65535 bytes. copy-isolation: decode with default/Lazy/Pool options, complement every byte of the caller's buffer, the packet (lazy: decoded only afterwards) must equal a packet decoded from a pristine copy. The packet block pool is the vsync shim pool with poisoned recycled blocks. distinct_nontrivial = distinct (first layer, layer-type sequence) outcomes."
+	r.Coverage["rule"] = "option-equivalence: every (first layer, input) of the deviation<=1 (header region, and length-field deviations beyond it to the end of the seed) neighbourhoods x DSAD: packets decoded with every combination of {Lazy, NoCopy, Pool} must have the same signature as the default decode, PooledPacket iff Pool && !NoCopy && len<=1500. sizes: every natural seed resized to 0,1,1499,1500,1501,3000,65535 bytes. copy-isolation: decode with default/Lazy/Pool options, complement every byte of the caller's buffer, the packet (lazy: decoded only afterwards) must equal a packet decoded from a pristine copy. The packet block pool is the vsync shim pool with poisoned recycled blocks. distinct_nontrivial = distinct (first layer, layer-type sequence) outcomes."
 	enum.Main(r, phases)
 	r.Assumptions = []string{"every NoCopy decode gets its own exact-capacity copy of the input (input integrity is C02)", "packet signatures (sig.Packet) observe layers, contents, payloads, rendered fields, special layers, error, truncation"}
 	r.Finish()
